@@ -27,7 +27,7 @@ func init() {
 					"A violation of the real run is attributed to known finding F1 iff it disappears in the counterfactual run and every parent index the hook saw was i/2 or (i-1)/2; any violation in a counterfactual run is a VIOLATION. " +
 					"heapq.Sort: every input of length <= 7 over 4 values (exhaustive) and random inputs up to 2000. " +
 					"distinct = hash of the op list; non-trivial = the queue reached >= 16 elements or an interior Remove(i) occurred",
-				Required:     []string{"histories", "histories_size_ge16", "interior_removes", "pushup_even_index_calls", "reorders", "sort_inputs", "drains"},
+				Required:     []string{"histories", "histories_size_ge16", "interior_removes", "pushup_even_index_calls", "reorders", "sort_inputs", "drains", "large_queue_histories"},
 				Exhaustive:   false,
 				Assumptions:  []string{"reference: map of held {Key,Tag} elements; minimality is checked against all held elements under the comparison currently installed", "known finding F1 is excused only through the counterfactual switch in heapq/verif_on.go"},
 				CoverPkgs:    []string{"github.com/creachadair/mds/heapq"},
@@ -140,6 +140,26 @@ func runC05(c *fw.Ctx) {
 	}
 	idx += n
 
+	// large queues (thresholds in the thousands): light per-step checks, full order check on every Pop and in the drain
+	nl := c.Pick(3, 24)
+	for k := 0; k < nl; k++ {
+		if !c.Begin(idx + k) {
+			continue
+		}
+		r := c.Rng()
+		size := []int{1023, 1024, 1025, 2047, 2048, 3000, 4095, 4096, 4097, 6000, 9000}[(k+c.Block)%11]
+		o := opt
+		o.light = true
+		o.update = r.IntN(3) == 0
+		ops := heapGenLarge(r, size, []int{8, 1000, 1 << 30}[r.IntN(3)], false)
+		_, st := c05attribute(c, ops, o, "C05")
+		c.Add("large_queue_histories", 1)
+		c.Add("interior_removes", int64(st.interior))
+		c.Max("max:queue_len", int64(st.maxLen))
+		c.Seen(heapHash(ops))
+	}
+	idx += nl
+
 	// heapq.Sort: exhaustive small inputs (partitioned over blocks), random large.
 	code := 0
 	for length := 0; length <= 7; length++ {
@@ -161,7 +181,7 @@ func runC05(c *fw.Ctx) {
 				vs[i] = Elem{Key: y % 4, Tag: i + 1}
 				y /= 4
 			}
-			c05sort(c, vs, x%2)
+			c05sort(c, vs, x%5)
 			c.SeenEnum(1)
 		}
 	}
@@ -172,12 +192,21 @@ func runC05(c *fw.Ctx) {
 		}
 		r := c.Rng()
 		m := r.IntN(2001)
+		if k%10 == 0 {
+			m = []int{4095, 4096, 4097, 5000, 8192, 10000, 20000, 6000}[(k/10+c.Block)%8] // beyond buffer-size thresholds
+		}
 		kr := []int{2, 5, 100, 1 << 30}[r.IntN(4)]
-		vs := make([]Elem, m)
+		vs := make([]Elem, m, m+[]int{0, 0, 5000}[r.IntN(3)])
+		if k%20 == 10 {
+			// a short slice inside a very large array
+			big := make([]Elem, 9000)
+			m = r.IntN(60)
+			vs = big[100 : 100+m]
+		}
 		for i := range vs {
 			vs[i] = Elem{Key: r.IntN(kr), Tag: i + 1}
 		}
-		c05sort(c, vs, r.IntN(3))
+		c05sort(c, vs, r.IntN(5))
 	}
 }
 
